@@ -81,7 +81,9 @@ class Inst:
         self.stubs: Dict[str, Callable] = {}
         self.default_attr: Optional[Callable[[str], Any]] = None
         self.label = label
-        self.model = False          # hand-made model object: a missing attribute is a hole in the model
+        # hand-made model object (always so for an object without a /repo class): a missing attribute is a hole
+        # in the model (MissingModelAttr -> ANALYSIS-ERROR), never an AttributeError of the interpreted program
+        self.model = cls is None
 
     def __repr__(self):
         return f"<{self.label or (self.cls.qualname if self.cls else 'object')}>"
